@@ -7,6 +7,7 @@ Exit codes: 0 property held on everything explored (KNOWN-FINDING lines allowed)
 """
 import argparse
 import collections
+import copy
 import importlib
 import json
 import os
@@ -147,16 +148,16 @@ def shrink_violation(chk, case, viol):
     target = vclass(viol)
 
     def still_fails(c):
-        r = chk.execute(c)
+        r = chk.execute(copy.deepcopy(c))  # execute must not see changes an earlier execution made to the case
         return any(vclass(v) == target for v in r.violations)
 
     list_paths, simplifiers = chk.shrink_spec(case)
     small, ntests = shrink.shrink_case(case, still_fails, list_paths, simplifiers, max_tests=getattr(chk, "SHRINK_BUDGET", 300))
-    r = chk.execute(small, keep_log=True)
+    r = chk.execute(copy.deepcopy(small), keep_log=True)
     vs = [v for v in r.violations if vclass(v) == target]
     if not vs:  # fall back to the unshrunk case
         small = case
-        r = chk.execute(small, keep_log=True)
+        r = chk.execute(copy.deepcopy(small), keep_log=True)
         vs = [v for v in r.violations if vclass(v) == target]
     if not vs:
         raise Flaky("violation %s found at index %s did not recur when the same case was executed again: a source of nondeterminism is not owned by the simulator (library or harness)" % (list(target), case.get("_meta", {}).get("index")))
@@ -223,7 +224,7 @@ def worker_main(args):
         faulthandler.dump_traceback_later(args.run_timeout, exit=True)
         try:
             case = case_for(chk, args.seed, index, args.tier)
-            res = chk.execute(case, keep_log=(args.digests or len(samples) < args.samples))
+            res = chk.execute(copy.deepcopy(case), keep_log=(args.digests or len(samples) < args.samples))
         except Exception:
             faulthandler.cancel_dump_traceback_later()
             emit({"type": "harness-error", "index": index, "trace": traceback.format_exc()})
@@ -539,7 +540,7 @@ def replay_main(path):
     chk = load_check(blob["property"])
     if hasattr(chk, "worker_setup"):
         chk.worker_setup()
-    res = chk.execute(blob["case"], keep_log=True)
+    res = chk.execute(copy.deepcopy(blob["case"]), keep_log=True)
     want = vclass(blob["violation"])
     got = [v for v in res.violations if vclass(v) == want]
     print("replay %s: tree=%s (recorded on %s)" % (path, repo_tree_id(), blob.get("tree")))
